@@ -494,6 +494,11 @@ func (a *ar) block(ss []ast.Stmt, en env, ind string) string {
 		}
 		return a.block(rest, en, ind)
 	case *ast.RangeStmt:
+		// a loop read as an existence test as a whole (its full text is the key: nested iteration that can only `continue` or
+		// `return true`)
+		if at, ok := a.existsAtoms["loop|"+srcOfNode(v)]; ok {
+			return ind + "if " + at + " = true then\n" + ind + "  true\n" + ind + "else\n" + a.block(rest, en, ind+"  ")
+		}
 		// existence loop: for _, x := range S { if cond(x) { return true } }  ->  if <exists> then true else <rest>
 		if a.existsAtoms != nil && v.Value != nil && len(v.Body.List) == 1 {
 			if is, ok := v.Body.List[0].(*ast.IfStmt); ok && is.Init == nil && is.Else == nil && len(is.Body.List) == 1 {
